@@ -79,8 +79,16 @@ def make_sequence(rng, conformant):
         hv = 2 if (major == 3 and nat < 3) else 0   # keeps major_version 3 minimal when the pictures need less
         if major == 3 and nat < 3 and rng.random() < 0.5:
             major, hv = nat, 0
-        units = valid_sequence(cfg, rng, major=major, level=level, hdr_variant=hv, npics=rng.choice([0, 1, 2, 2, 3]))
-        if not conformant:
+        npics = rng.choice([0, 1, 2, 2, 3])
+        if not conformant and nat < 3 and rng.random() < 0.3:
+            # non-conformant ONLY through state accumulated within the sequence: a declared major_version
+            # above what the sequence's own features need (MajorVersionTooHigh) -- the kind of verdict that a
+            # leak of version bounds from an EARLIER sequence would flip
+            major, hv, npics = rng.choice([3, 3, 2] if nat < 2 else [3]), 0, max(1, npics)
+        units = valid_sequence(cfg, rng, major=major, level=level, hdr_variant=hv, npics=npics)
+        if not conformant and hv == 0 and major > nat and nat < 3 and rng.random() < 0.7:
+            pass   # keep it as it is: the version is the only defect
+        elif not conformant:
             for _ in range(rng.choice([1, 1, 2])):
                 units2, lab = mutate(units, cfg, rng, major, level)
                 if lab in SAFE_MUTATIONS:
